@@ -108,21 +108,32 @@ def space_tolerant_extraction(model: Model, run: Run) -> None:
             fns[f.qualname] = f
     n_ob = 0
     mfuncs = {f.name: f.node for f in fns.values() if f.cls is None and isinstance(f.node, ast.FunctionDef)}
-    # pass 1: what every caller hands to the module-level helpers
-    seen_args = {}
+    # what every caller hands to the module-level helpers: greatest fixpoint, starting from "every helper parameter is normalised"
+    # (a helper called only by other helpers inherits what those were handed)
+    pstat = {h: {x.arg: True for x in node.args.args} for h, node in mfuncs.items()}
+    for _iter in range(6):
+        seen_args = {}
+        for q, fi in sorted(fns.items()):
+            if isinstance(fi.node, ast.Lambda):
+                continue
+            a0 = analyse(fi.node, q, mfuncs, pstat.get(fi.name) if fi.cls is None else None)
+            for h, lst in a0.call_args.items():
+                seen_args.setdefault(h, []).extend(lst)
+        new = {}
+        for h, lst in seen_args.items():
+            if h in mfuncs:
+                names = [x.arg for x in mfuncs[h].args.args]
+                new[h] = {nm: all(args[i] for args in lst if i < len(args)) for i, nm in enumerate(names)}
+        # a helper nobody calls (any more) with known statuses gets no assumption
+        for h in mfuncs:
+            new.setdefault(h, {x.arg: False for x in mfuncs[h].args.args})
+        if new == pstat:
+            break
+        pstat = new
     for q, fi in sorted(fns.items()):
         if isinstance(fi.node, ast.Lambda):
             continue
-        a0 = analyse(fi.node, q, mfuncs)
-        for h, lst in a0.call_args.items():
-            seen_args.setdefault(h, []).extend(lst)
-    for q, fi in sorted(fns.items()):
-        if isinstance(fi.node, ast.Lambda):
-            continue
-        ps = None
-        if fi.cls is None and fi.name in seen_args:
-            names = [x.arg for x in fi.node.args.args]
-            ps = {nm: all(args[i] for args in seen_args[fi.name] if i < len(args)) for i, nm in enumerate(names)}
+        ps = pstat.get(fi.name) if fi.cls is None else None
         a = analyse(fi.node, q, mfuncs, ps)
         n_ob += a.obligations
         for _ in range(a.obligations - len(a.violations)):
